@@ -164,24 +164,37 @@ def run(prog, rep, tier='quick'):
     x = C.data(False)
     v, itp = C.run_function(prog, 'lpc', 'lpc', [x], {}, itp=itp)
     lw = loc(lpc.mod, lpc.node)
-    np2 = itp.watch['tools.nextpow2']
     n_l = 0
-    if not np2:
-        rep.undecided('lpc', lpc.qname, 'fft length', 'nextpow2 call not found', lw)
+    # the transform length of the autocorrelation: a value with a derived lower bound (2 ** ceil(log2(n)) >= n, however it is spelt:
+    # tools.nextpow2, math.log2 / numpy.log2 with ceil, next_fast_len) that covers the 2*len(x)-1 lags
+    here = {lpc.qname} | {q_ for q_ in itp.trace if q_.startswith('lpc.')}
+    ffts = [e for e in itp.events if e[0] == 'fft' and e[2] == 'fft' and isinstance(e[6], Num) and 'x' in e[6].taint]
+    if not ffts:
+        rep.undecided('lpc', lpc.qname, 'fft length', 'forward transform of the data not found', lw)
     else:
-        argv = tonum(np2[0]['params'].get('x'))
+        nlen = ffts[0][4]
         n_l += 1
         need = C.N_SYM.scale(2) - 1
-        if argv is None or argv.ex is None:
-            rep.undecided('lpc', lpc.qname, 'fft length', 'argument of nextpow2 not exact', lw)
-        else:
-            d = argv.ex - need
+        ia_ = nlen.a if isinstance(nlen, IntV) else (tonum(nlen).ex if (nlen is not None and tonum(nlen) is not None) else None)
+        lb = getattr(nlen, 'lb', None) if nlen is not None else None
+        ub = getattr(nlen, 'ub', None) if nlen is not None else None
+        low = ia_ if ia_ is not None else lb
+        if nlen is None or (isinstance(nlen, Const) and nlen.v is None):
+            rep.violation('lpc', lpc.qname, 'fft length', 'the data are transformed at their own length: the circular correlation wraps into '
+                          'the lags used', lw)
+        elif low is not None:
+            d = low - need
             s_ = d.sign() if not d.is_const() else ((d.c > 0) - (d.c < 0))
             if (s_ is not None and s_ >= 0) or d.nonneg():
-                rep.proved('lpc', lpc.qname, 'fft length', '2**nextpow2(%s) >= 2*len(x)-1' % argv.ex, lw)
+                rep.proved('lpc', lpc.qname, 'fft length', 'transform length >= %s >= 2*len(x)-1' % low, lw)
             else:
-                rep.violation('lpc', lpc.qname, 'fft length', 'the autocorrelation FFT has length 2**nextpow2(%s), which can be shorter '
-                              'than 2*len(x)-1 = %s: the circular correlation wraps into the lags used' % (argv.ex, need), lw)
+                rep.violation('lpc', lpc.qname, 'fft length', 'the autocorrelation FFT length is only known to reach %s, which can be shorter '
+                              'than 2*len(x)-1 = %s: the circular correlation wraps into the lags used' % (low, need), lw)
+        elif ub is not None:
+            rep.violation('lpc', lpc.qname, 'fft length', 'the autocorrelation FFT length is at most %s (a power of two rounded DOWN): shorter '
+                          'than the 2*len(x)-1 lags unless that is itself a power of two' % ub, lw)
+        else:
+            rep.undecided('lpc', lpc.qname, 'fft length', 'no lower bound derivable for the transform length', lw)
     lc = itp.watch[lev.qname]
     if len(lc) == 1:
         n_l += 1
